@@ -45,7 +45,7 @@ def stub_hass(loop):
 
     svc = SimpleNamespace(async_register=async_register, async_remove=async_remove, table=services,
                           has_service=lambda d, s: (d, s) in services, calls=[],
-                          supports_response=lambda d, s: "none", async_services=lambda: {},
+                          supports_response=lambda d, s: "none", async_services=lambda: {}, async_services_internal=lambda: {},
                           async_services_for_domain=lambda d: {})
     hass = SimpleNamespace(data={DOMAIN: {CONFIG_ENTRY: SimpleNamespace(data={})}}, loop=loop, services=svc,
                            config=SimpleNamespace(path=lambda *a: "/nonexistent/pyscript_replay"),
@@ -89,6 +89,13 @@ async def boot_full(legacy=False, allow_all_imports=False):
     hass.data[DOMAIN][CONFIG_ENTRY] = SimpleNamespace(data={"allow_all_imports": allow_all_imports,
                                                             "legacy_decorators": legacy})
     State.register_functions()
+    # Home Assistant's service-description loader needs a real HomeAssistant object (translations, integrations): outside
+    # the repository, stubbed here as "no service has a description" (listed as an assumption in the evidence)
+    import custom_components.pyscript.state as _state_mod
+
+    async def _no_descriptions(_hass):
+        return {}
+    _state_mod.async_get_all_descriptions = _no_descriptions
     TrigTime.init(hass)
     try:
         GlobalContextMgr.init()
@@ -219,6 +226,54 @@ async def c12_owner_is_evaluator_name(w):
     return {"reproduced": rep, "observed": {"error": repr(err), "owners": owner, "service_registered_after_redefinition": still,
                                             "log": logs[:2]},
             "expected": "redefinition inside the same global context file.owner is accepted (same owner)"}
+
+
+async def c12_refused_name(w):
+    """A @service decorator one of whose names is owned by another global context: nothing of that decorator may be
+    registered, the service of the earlier (accepted) definition must still reach THAT definition, and unloading every
+    context must leave no service behind."""
+    from types import SimpleNamespace as NS
+    from custom_components.pyscript.function import Function
+    from custom_components.pyscript.global_ctx import GlobalContext, GlobalContextMgr
+    legacy = w.get("subsystem", "new") == "legacy"
+    hass = await boot_full(legacy=legacy)
+    Function.service_cnt.clear()
+    Function.service2global_ctx.clear()
+    calls = []
+    ctxs = {}
+    for cn in ("file.c12a", "file.c12b"):
+        g = GlobalContext(cn, global_sym_table={"__name__": cn, "note": lambda v: calls.append(v)}, manager=GlobalContextMgr)
+        GlobalContextMgr.set(cn, g)
+        g.set_auto_start(True)
+        ctxs[cn] = g
+    order = w.get("order", "accepted-first")
+    names = "'pyscript.s1', 'pyscript.s2'" if order == "accepted-first" else "'pyscript.s2', 'pyscript.s1'"
+    steps = [("file.c12b", "@service('pyscript.s2')\ndef g0():\n    note(0)\n"),
+             ("file.c12a", "@service('pyscript.s1')\ndef f1():\n    note(1)\n"),
+             ("file.c12a", f"@service({names})\ndef f2():\n    note(2)\n")]
+    for cn, src in steps:
+        await run_source(cn, src, global_ctx=ctxs[cn])
+        await settle(60)
+    registered = sorted(f"{d}.{s_}" for (d, s_) in hass.services.table if d == "pyscript" and s_ in ("s1", "s2"))
+    ran = {}
+    for x in ("s1", "s2"):
+        calls.clear()
+        cb = hass.services.table.get(("pyscript", x))
+        if cb:
+            await cb(NS(data={}, context=None, domain="pyscript", service=x))
+            await settle(25)
+        ran[x] = list(calls)
+    for g in ctxs.values():
+        g.stop()
+    for cn in ctxs:
+        GlobalContextMgr.delete(cn)
+    await settle(80)
+    left = sorted(f"{d}.{s_}" for (d, s_) in hass.services.table if d == "pyscript" and s_ in ("s1", "s2"))
+    await shutdown()
+    want_ran = {"s1": [1], "s2": [0]}
+    rep = registered != ["pyscript.s1", "pyscript.s2"] or ran != want_ran or bool(left)
+    return {"reproduced": rep, "observed": {"registered": registered, "definition_reached": ran, "left_after_unload": left},
+            "expected": {"registered": ["pyscript.s1", "pyscript.s2"], "definition_reached": want_ran, "left_after_unload": []}}
 
 
 async def c12_outgoing(w):
@@ -3550,6 +3605,138 @@ async def c16_random_bounded(w):
     await shutdown()
     return {"unit": "state variables through the interpreter", "method": "random statement sequences vs a map model of the documentation", "bound": f"{n} programs of 3-8 statements over 2 entities x 2 attributes, seeded",
             "cases": cases, "distinct_nontrivial": len(nontriv), "samples": samples, "failures": failures, "reproduced": bool(failures)}
+
+
+# ---------------------------------------------------------------------------------------------------------
+# C12: random service life cycles over two global contexts against an ownership model
+# ---------------------------------------------------------------------------------------------------------
+async def c12_random_bounded(w):
+    """Bounded stand-in for '@service exists exactly while declared': random sequences of defining, redefining and deleting
+    @service functions in two global contexts, and stopping a context; after every step the services registered with Home
+    Assistant, and which function a call reaches, must equal an ownership model (a name belongs to the first context that
+    declares it until that context's last declaring function is gone)."""
+    import random, gc
+    from custom_components.pyscript.function import Function
+    from custom_components.pyscript.global_ctx import GlobalContext, GlobalContextMgr
+    rng = random.Random(1212 + int(w.get("seed", 0)))
+    n = int(w.get("programs", 60))
+    failures, cases, samples, nontriv = [], 0, [], set()
+    for legacy in (False, True):
+        sub = "legacy" if legacy else "new"
+        for pi in range(n):
+            hass = await boot_full(legacy=legacy)
+            # class-level tables survive in one process: start every sequence from empty ones (as a fresh process does)
+            Function.service_cnt.clear()
+            Function.service2global_ctx.clear()
+            calls = []
+            ctxs = {}
+            owner = {}      # service name -> context
+            decl = {}       # (context, function name) -> (set of service names, version)
+            listed = {}     # the same, including definitions whose decorator was refused
+            log = []
+            version = [0]
+
+            def mk_ctx(cn):
+                g = GlobalContext(cn, global_sym_table={"__name__": cn, "note": lambda v: calls.append(v)}, manager=GlobalContextMgr)
+                GlobalContextMgr.set(cn, g)
+                g.set_auto_start(True)
+                ctxs[cn] = g
+                return g
+            ok = True
+            for step in range(rng.randrange(3, 9)):
+                cn = rng.choice(["file.c12a", "file.c12b"])
+                fname = f"f{step}"     # a fresh function name each time: redefinition and 'del f' free the old function only when CPython
+                # finalises it, which is not specified (C09 not-decided clause); contexts are stopped only at the end
+                svcs = rng.sample(["pyscript.s1", "pyscript.s2"], k=rng.choice([1, 1, 2]))
+                # ('del f' is not generated: when the service disappears then depends on when CPython finalises the function object)
+                op = rng.choice(["define", "define", "define", "call"])
+                if op == "define":
+                    g = ctxs.get(cn) or mk_ctx(cn)
+                    version[0] += 1
+                    v = version[0]
+                    src = "@service(" + ", ".join(repr(x) for x in svcs) + f")\ndef {fname}():\n    note({v})\n"
+                    _, _, exc = await run_source(cn, src, global_ctx=g)
+                    await settle(60)
+                    gc.collect()
+                    gc.collect()
+                    await settle(60)
+                    log.append(("define", cn, fname, svcs, v, type(exc).__name__ if exc else None))
+                    # model: a name owned by ANOTHER context is refused with a logged error.
+                    # the decorator subsystem fails the whole decorator (none of its names is registered)
+                    foreign = [x for x in svcs if owner.get(x) not in (None, cn)]
+                    # (both subsystems: the whole decorator fails and none of its names stays registered)
+                    accepted = [] if foreign else list(svcs)
+                    if accepted:
+                        decl[(cn, fname)] = (set(accepted), v)
+                    listed[(cn, fname)] = (set(svcs), v)
+                elif op == "delete":
+                    if (cn in ctxs):
+                        _, _, exc = await run_source(cn, f"try:\n    del {fname}\nexcept NameError:\n    pass\n", global_ctx=ctxs[cn])
+                        await settle(10)
+                        gc.collect()
+                        await settle(10)
+                        decl.pop((cn, fname), None)
+                        log.append(("delete", cn, fname))
+                elif op == "stop":
+                    if cn in ctxs:
+                        ctxs[cn].stop()
+                        GlobalContextMgr.delete(cn)
+                        del ctxs[cn]
+                        await settle(15)
+                        gc.collect()
+                        await settle(10)
+                        for k in [k for k in decl if k[0] == cn]:
+                            decl.pop(k)
+                        log.append(("stop", cn))
+                # recompute ownership: a service is owned by the context of the functions declaring it (first come)
+                live = {}
+                for (c2, f2), (names, v2) in decl.items():
+                    for x in names:
+                        live.setdefault(x, []).append((c2, f2, v2))
+                for x in list(owner):
+                    if x not in live or all(c2 != owner[x] for c2, _, _ in live[x]):
+                        owner.pop(x)
+                for x, lst in live.items():
+                    owner.setdefault(x, lst[0][0])
+                want = {x for x in owner}
+                got = {f"{d}.{s_}" for (d, s_) in hass.services.table if d == "pyscript" and s_ in ("s1", "s2")}
+                cases += 1
+                if got != want:
+                    ok = False
+                    if len(failures) < int(w.get("max_failures", 3)):
+                        failures.append({"signature": f"c12-random:{sub}:{log}", "subsystem": sub, "history": [list(map(str, l)) for l in log], "registered": sorted(got), "expected": sorted(want)})
+                    break
+                if op == "call" and want:
+                    x = rng.choice(sorted(want))
+                    calls.clear()
+                    cb = hass.services.table[tuple(x.split("."))]
+                    from types import SimpleNamespace as NS
+                    await cb(NS(data={}, context=None, domain="pyscript", service=x.split(".")[1]))
+                    await settle(25)
+                    # the function reached is the LAST declared live function of the owning context for that name
+                    cands = [v2 for (c2, f2, v2) in live[x] if c2 == owner[x]]
+                    if calls != [max(cands)]:
+                        ok = False
+                        if len(failures) < int(w.get("max_failures", 3)):
+                            failures.append({"signature": f"c12-random-call:{sub}:{log}", "subsystem": sub, "history": [list(map(str, l)) for l in log], "service": x, "ran_versions": list(calls), "live_versions": cands})
+                        break
+            nontriv.add(tuple(str(l[:3]) for l in log))
+            if len(samples) < 2 and log:
+                samples.append({"subsystem": sub, "history": [list(map(str, l)) for l in log]})
+            for g in list(ctxs.values()):
+                g.stop()
+            for cn in list(ctxs):
+                GlobalContextMgr.delete(cn)
+            await settle(80)
+            # unloading every context removes every service, without waiting for CPython to finalise anything
+            left = {f"{d}.{s_}" for (d, s_) in hass.services.table if d == "pyscript" and s_ in ("s1", "s2")}
+            cases += 1
+            if ok and left and len(failures) < int(w.get("max_failures", 3)):
+                failures.append({"signature": f"c12-random-unload:{sub}:{log}", "subsystem": sub, "history": [list(map(str, l)) for l in log] + [["stop every context"]], "registered": sorted(left), "expected": []})
+            gc.collect()
+            await shutdown()
+    return {"unit": "@service life cycle (both subsystems)", "method": "random define / redefine / delete / stop / call sequences over two contexts vs an ownership model",
+            "bound": f"{n} sequences of 3-8 steps per subsystem, seeded", "cases": cases, "distinct_nontrivial": len(nontriv), "samples": samples, "failures": failures, "reproduced": bool(failures)}
 
 
 async def c04_classification_bounded(w):
